@@ -9,7 +9,7 @@ use crate::yrun::{self, End, GcCfg, Outcome, RunCfg};
 
 pub struct C01;
 
-const CHURN: &str = "fn churn() { var j = []; for i in 0..12 { j.push([i, (i, i)]); } return j.len(); }\n#[constructor(new)]\nclass Box_ { fn get(self) { return self.v; } fn set(self, v) { self.v = v; return self; } }\n";
+const CHURN: &str = "fn churn() { var j = []; for i in 0..12 { j.push([i, (i, i)]); } return j.len(); }\n#[constructor(new)]\nclass Box_ { fn get(self) { return self.v; } fn set(self, v) { self.v = v; return self; } }\nfn fresh_class() { class Fresh { fn m(self) { return [1]; } } return Fresh; }\nfn evr() { var r = 700..703; var k = 1; while k <= 12 { var q = (0 - k)..11; k = k + 1; } return r; }\n";
 
 /// fresh objects that nothing else references (expression text, is_hashable)
 const OBJECTS: &[(&str, bool)] = &[
@@ -25,6 +25,11 @@ const OBJECTS: &[(&str, bool)] = &[
     ("Fiber.new(|| [1])", false),
     ("(\"a\" + \"b\", 1 / 3)", true),
     ("[].push", false),
+    // a class nothing names any more, and a range that the interpreter's cache of recently built
+    // ranges no longer holds: both hashable, both reachable through the edge alone
+    ("fresh_class()", true),
+    ("evr()", true),
+    ("(evr(), fresh_class())", true),
 ];
 
 /// (name, template): `@O` is replaced by the object expression; `churn();` marks where garbage is made
